@@ -193,7 +193,7 @@ class EngineCheck(PropertyCheck):
     def run_impl_model(self, ctx, res, cases, houts):
         """the concrete engine model (Model/EngineImpl.lean, a transliteration of BuildEngineImpl with its
         queues) must PREDICT the real engine's output line for line in the deterministic (hook-driven)
-        mode; builds with free-running threads or a forked crash are outside it (`unsupported`)"""
+        mode; builds with free-running threads are outside it (`unsupported`); of a build killed in a forked child the model predicts the recorded prefix (`killedTrace`)"""
         from .. import engine_impl as EI
         lines = []
         for c in cases:
@@ -212,7 +212,10 @@ class EngineCheck(PropertyCheck):
                     st["outside_model"] += 1
                     continue
                 if a == b:
-                    st["builds_predicted_exactly" if b.startswith("B ") else "other_lines_equal"] += 1
+                    if b.endswith("KILL"):
+                        st["killed_builds_predicted_exactly"] = st.get("killed_builds_predicted_exactly", 0) + 1
+                    else:
+                        st["builds_predicted_exactly" if b.startswith("B ") else "other_lines_equal"] += 1
                     continue
                 st["disagreements"] += 1
                 if len([x for x in res.mismatches if x.get("stream") == "engineimpl"]) < 10:
